@@ -121,6 +121,7 @@ impl CertificateSigningRequestParams {
 			let der = yasna::construct_der(|writer| alg.write_oids_sign_alg(writer));
 			matches!(AlgorithmIdentifier::from_der(&der), Ok((_, id)) if id == info.subject_pki.algorithm)
 		};
+		let sig_alg = alg;
 		let alg = match describes_key(&alg) {
 			true => alg,
 			false => SignatureAlgorithm::iter()
@@ -128,6 +129,12 @@ impl CertificateSigningRequestParams {
 				.find(describes_key)
 				.ok_or(Error::UnsupportedSignatureAlgorithm)?,
 		};
+		// The signature was checked with the algorithm the signature OID names, on the key bits
+		// alone. It is a signature under the embedded key only if that algorithm is one for the
+		// kind of key (RSA, EC, Ed25519) the SubjectPublicKeyInfo declares.
+		if !alg.same_key_type(sig_alg) {
+			return Err(Error::UnsupportedSignatureAlgorithm);
+		}
 		let mut params = CertificateParams {
 			distinguished_name: DistinguishedName::from_name(&info.subject)?,
 			..CertificateParams::default()
